@@ -66,6 +66,8 @@ pub struct CCfg {
     pub replicate: bool,
     pub crash: bool,
     pub ops: bool,
+    /// synchronisation messages that arrive damaged (one tag's public point no longer decodes)
+    pub damaged_sync: bool,
     pub verifiable: bool,
     pub requests_per_client: usize,
     pub inputs: Vec<Vec<u8>>,
@@ -79,6 +81,7 @@ pub enum Ev {
     Snapshot(usize),
     Crash(usize),
     Op(usize),
+    DamagedSync(usize),
 }
 
 /// what a completed exchange looked like, for the property oracles
@@ -207,6 +210,14 @@ impl WorldC {
                 let at = ctx.ch.draw(cfg.horizon_us);
                 let s = ctx.ch.index(cfg.n_servers);
                 w.sim.after(at, Ev::Op(s));
+            }
+        }
+        if cfg.damaged_sync && cfg.n_servers > 1 {
+            let n = 1 + ctx.ch.index(2);
+            for _ in 0..n {
+                let at = ctx.ch.draw(cfg.horizon_us);
+                let s = ctx.ch.index(cfg.n_servers);
+                w.sim.after(at, Ev::DamagedSync(s));
             }
         }
         // a pool of points for cross-tag sweeps
@@ -344,6 +355,72 @@ impl WorldC {
             }
             v
         })
+    }
+
+    /// Server `s` is handed the exported state of server `o` (another key) with ONE tag's public point
+    /// overwritten by bytes that are no group element - a synchronisation message damaged in transit or in
+    /// storage. Whether the server takes the state, refuses it, or takes it as far as it decodes is its
+    /// business; but whatever it serves afterwards must verify against the public key it publishes
+    /// afterwards (completeness holds for a server, not for a key state). Its own intact state is put back
+    /// at the end, so the models are untouched.
+    fn damaged_sync(&mut self, ctx: &mut Ctx, s: usize, o: usize) -> Result<(), Violation> {
+        let ser = |srv: &pp::Server| bincode::serialize(&srv.get_private_key()).map_err(|e| Violation::new("c.setup", "export", e.to_string()));
+        let backup = ser(&self.servers[s].server)?;
+        let blob = ser(&self.servers[o].server)?;
+        let pk_o = self.servers[o].server.get_public_key().serialize_to_bincode().map_err(|e| Violation::new("c.setup", "pk", e.to_string()))?;
+        let pos = blob.windows(pk_o.len()).position(|w| w == &pk_o[..]);
+        let ntags = pk_o.len().saturating_sub(40) / 33;
+        let pos = match pos {
+            Some(p) if ntags >= 2 && (pk_o.len() - 40) % 33 == 0 => p,
+            _ => {
+                ctx.stats.probe("damaged_sync_skipped");
+                return Ok(());
+            }
+        };
+        let e = ctx.ch.index(ntags);
+        let off = pos + 40 + e * 33;
+        let damaged_tag = blob[off];
+        let mut bad = blob.clone();
+        let fill = *ctx.ch.pick(&[0xffu8, 0xfe, 0x80]);
+        for b in bad[off + 1..off + 33].iter_mut() {
+            *b = fill;
+        }
+        ctx.stats.fault("damaged_sync_message");
+        ev!(ctx, "t={} server {} is handed server {}'s state with the public point of tag {} damaged", self.sim.now, s, o, damaged_tag);
+        match bincode::deserialize::<pp::ServerKeyState>(&bad) {
+            Ok(st) => {
+                let srv = &mut self.servers[s].server;
+                let _ = crate::runner::guarded(move || {
+                    let _ = srv.set_private_key(st);
+                });
+            }
+            Err(_) => ctx.stats.probe("damaged_sync_refused_at_decode"),
+        }
+        let pk_now = self.servers[s].server.get_public_key();
+        let tags: BTreeSet<u8> = self.servers[s].model.registered.union(&self.servers[o].model.registered).copied().collect();
+        let point = self.pool[0].clone();
+        let node = self.servers[s].node;
+        for md in tags {
+            if md == damaged_tag {
+                continue;
+            }
+            let srv = &self.servers[s].server;
+            let r = crate::runner::guarded(|| ctx.os.with_node(node as u64, || srv.eval(&point, md, true)));
+            if let Ok(Ok(evl)) = r {
+                let ok = crate::runner::guarded(|| pp::Client::verify(&pk_now, &point, &evl, md));
+                if !matches!(ok, Ok(true)) {
+                    return Err(Violation::new(
+                        "c13.incomplete",
+                        "after_damaged_sync",
+                        format!("server {}: after being handed a synchronisation message whose public point for tag {} is damaged, its verifiable answer for tag {} does not verify against the public key it publishes", s, damaged_tag, md),
+                    ));
+                }
+                ctx.stats.probe("answers_verified_after_damaged_sync");
+            }
+        }
+        let st: pp::ServerKeyState = bincode::deserialize(&backup).map_err(|e| Violation::new("c.setup", "import", e.to_string()))?;
+        let _ = self.servers[s].server.set_private_key(st);
+        self.sweep(ctx, s, "a damaged synchronisation message, then its own intact state again")
     }
 
     pub fn run<O: COracle>(&mut self, ctx: &mut Ctx, oracle: &mut O) -> Result<(), Violation> {
@@ -510,6 +587,12 @@ impl WorldC {
                             ev!(ctx, "t={} server {} restarts without snapshot: new key {}", self.sim.now, s, kid);
                             ctx.stats.probe("restart_with_new_key");
                         }
+                    }
+                }
+                Ev::DamagedSync(s) => {
+                    let o = (s + 1 + ctx.ch.index(self.servers.len() - 1)) % self.servers.len();
+                    if self.servers[o].model.key_id != self.servers[s].model.key_id {
+                        self.damaged_sync(ctx, s, o)?;
                     }
                 }
                 Ev::Op(s) => {
